@@ -310,10 +310,17 @@ func (store *HStore) VerifWaitOpen() {
 		}
 		for i := 0; i < b.TreeID.Chunk; i++ {
 			for {
-				b.hints.chunks[i].Lock()
-				n := len(b.hints.chunks[i].splits)
-				b.hints.chunks[i].Unlock()
-				if b.datas.chunks[i].size == 0 || n >= 2 {
+				ck := b.hints.chunks[i]
+				ck.Lock()
+				n := len(ck.splits)
+				done := n >= 2
+				for _, sp := range ck.splits[:n-1] {
+					if sp.file == nil {
+						done = false
+					}
+				}
+				ck.Unlock()
+				if b.datas.chunks[i].size == 0 || done {
 					break
 				}
 				time.Sleep(200 * time.Microsecond)
